@@ -205,10 +205,12 @@ Definition dec_hlabel (l : list Z) : hlabel :=
   else if Z.eqb k 2 then HReturn (zn (nthz l 1))
   (* flags: 1 = reported as broken (r2d2 has_broken / a dangling diesel transaction), 2 = fails its validity
      check, 4 = diesel's transaction manager in its error state - broken as well, 8 = r2d2's has_broken
-     panics (the interaction fails: rejected like a broken connection, is_valid is not reached) *)
+     panics (the interaction fails: rejected like a broken connection, is_valid is not reached), 16 = the
+     next validity check fails and later ones would succeed (the connection is discarded by that one failure,
+     so for the pool it is an invalid connection) *)
   else if Z.eqb k 3 then HScript (zn (nthz l 1)) (Z.odd (nthz l 2) || Z.odd (Z.div2 (Z.div2 (nthz l 2)))
                                                    || Z.odd (Z.div2 (Z.div2 (Z.div2 (nthz l 2)))))
-                                 (Z.odd (Z.div2 (nthz l 2)))
+                                 (Z.odd (Z.div2 (nthz l 2)) || Z.odd (Z.div2 (Z.div2 (Z.div2 (Z.div2 (nthz l 2))))))
   else HTry.
 
 Definition run_pool_z (x : list Z * list (list Z)) : list Z :=
